@@ -44,10 +44,38 @@ vpv_cell!(#[kani::unwind(50)] c40_scalar_float, "C40/equivalence+hash/float", (a
 vpv_cell!(#[kani::unwind(50)] c40_scalar_timestamp, "C40/equivalence+hash/timestamp", (a: i64, b: i64, c: i64), { let (x, y, z) = (Value::Timestamp(a), Value::Timestamp(b), Value::Timestamp(c)); equiv3(&x, &y, &z) });
 vpv_cell!(#[kani::unwind(50)] c40_scalar_duration, "C40/equivalence+hash/duration", (a: u64, b: u64, c: u64), { let (x, y, z) = (Value::Duration(a), Value::Duration(b), Value::Duration(c)); equiv3(&x, &y, &z) });
 vpv_cell!(#[kani::unwind(50)] c40_scalar_str, "C40/equivalence+hash/str(1 char)", (a: u8, b: u8, c: u8), { let (x, y, z) = (str1(a), str1(b), str1(c)); let ok = equiv3(&x, &y, &z); std::mem::forget(x); std::mem::forget(y); std::mem::forget(z); ok });
-vpv_cell!(#[kani::unwind(50)] c40_cross_kind, "C40/cross-kind/never-equal+symmetric", (k1: u8, i1: i64, f1: f64, k2: u8, i2: i64, f2: f64), {
-    let (x, y) = (scalar(k1, i1, f1), scalar(k2, i2, f2));
-    let ok = if k1 % 6 == k2 % 6 { (x == y) == (y == x) } else { !(x == y) && !(y == x) };
-    std::mem::forget(x); std::mem::forget(y);
+vpv_cell!(#[kani::unwind(50)] c40_cross_kind, "C40/cross-kind/values of different scalar variants are never equal (all 30 ordered pairs, payloads full-domain)", (b: bool, i: i64, f: f64, d: u64), {
+    let mut ok = true;
+    ok = ok && !(Value::Null == Value::Bool(b));
+    ok = ok && !(Value::Null == Value::Int(i));
+    ok = ok && !(Value::Null == Value::Float(f));
+    ok = ok && !(Value::Null == Value::Timestamp(i));
+    ok = ok && !(Value::Null == Value::Duration(d));
+    ok = ok && !(Value::Bool(b) == Value::Null);
+    ok = ok && !(Value::Bool(b) == Value::Int(i));
+    ok = ok && !(Value::Bool(b) == Value::Float(f));
+    ok = ok && !(Value::Bool(b) == Value::Timestamp(i));
+    ok = ok && !(Value::Bool(b) == Value::Duration(d));
+    ok = ok && !(Value::Int(i) == Value::Null);
+    ok = ok && !(Value::Int(i) == Value::Bool(b));
+    ok = ok && !(Value::Int(i) == Value::Float(f));
+    ok = ok && !(Value::Int(i) == Value::Timestamp(i));
+    ok = ok && !(Value::Int(i) == Value::Duration(d));
+    ok = ok && !(Value::Float(f) == Value::Null);
+    ok = ok && !(Value::Float(f) == Value::Bool(b));
+    ok = ok && !(Value::Float(f) == Value::Int(i));
+    ok = ok && !(Value::Float(f) == Value::Timestamp(i));
+    ok = ok && !(Value::Float(f) == Value::Duration(d));
+    ok = ok && !(Value::Timestamp(i) == Value::Null);
+    ok = ok && !(Value::Timestamp(i) == Value::Bool(b));
+    ok = ok && !(Value::Timestamp(i) == Value::Int(i));
+    ok = ok && !(Value::Timestamp(i) == Value::Float(f));
+    ok = ok && !(Value::Timestamp(i) == Value::Duration(d));
+    ok = ok && !(Value::Duration(d) == Value::Null);
+    ok = ok && !(Value::Duration(d) == Value::Bool(b));
+    ok = ok && !(Value::Duration(d) == Value::Int(i));
+    ok = ok && !(Value::Duration(d) == Value::Float(f));
+    ok = ok && !(Value::Duration(d) == Value::Timestamp(i));
     ok });
 vpv_cell!(#[kani::unwind(50)] c40_cross_kind_str, "C40/cross-kind/str-vs-scalar", (c: u8, k: u8, i: i64, f: f64), {
     let (x, y) = (str1(c), scalar(k, i, f)); let ok = !(x == y) && !(y == x); std::mem::forget(x); std::mem::forget(y); ok });
@@ -61,7 +89,4 @@ vpv_cell!(#[kani::unwind(50)] c40_array_float2, "C40/equivalence+hash/array[2] o
 vpv_cell!(#[kani::unwind(50)] c40_array_len, "C40/equivalence+hash/array length 1 vs 2 (int)", (a0: i64, b0: i64, b1: i64), {
     let x = Value::array(vec![Value::Int(a0)]); let y = Value::array(vec![Value::Int(b0), Value::Int(b1)]);
     let ok = !(x == y) && !(y == x) && x == x && y == y; std::mem::forget(x); std::mem::forget(y); ok });
-vpv_cell!(#[kani::unwind(50)] c40_array_nested, "C40/equivalence+hash/array[[float]] depth 2", (a: f64, b: f64), {
-    let x = Value::array(vec![Value::array(vec![Value::Float(a)])]); let y = Value::array(vec![Value::array(vec![Value::Float(b)])]);
-    let ok = (x == y) == (y == x) && x == x && (!(x == y) || same_stream(&stream(&x), &stream(&y))); std::mem::forget(x); std::mem::forget(y); ok });
-vpv_replay_table!(c40_scalar_null, c40_scalar_bool, c40_scalar_int, c40_scalar_float, c40_scalar_timestamp, c40_scalar_duration, c40_scalar_str, c40_cross_kind, c40_cross_kind_str, c40_float_special, c40_array_float2, c40_array_len, c40_array_nested);
+vpv_replay_table!(c40_scalar_null, c40_scalar_bool, c40_scalar_int, c40_scalar_float, c40_scalar_timestamp, c40_scalar_duration, c40_scalar_str, c40_cross_kind, c40_cross_kind_str, c40_float_special, c40_array_float2, c40_array_len);
